@@ -28,6 +28,20 @@ DEF_CLASSES = VERTEX_CLASSES + CURVED_CLASSES
 ACCEPT_DEV = 1e-2
 
 
+_SCRIBBLE = [False]
+
+
+def _scribble_ball(value):
+    """The caller edits a ball it was handed (its own object)."""
+    try:
+        r = float(value.radius)
+        c = np.array(value.centroid, dtype=float)
+        value.radius = r * 1.25
+        value.centroid = c + 0.37 * r
+    except Exception:  # noqa: BLE001 - an immutable result is fine too
+        pass
+
+
 def _read(shape, name):
     """('ok', value) | ('ni',) | ('rt', exc) | ('exc', exc) | ('absent',)"""
     if not hasattr(type(shape), name):
@@ -48,7 +62,10 @@ def _read(shape, name):
 
 def _ball(value):
     c = np.array(value.centroid, dtype=float)
-    return c, float(value.radius)
+    r = float(value.radius)
+    if _SCRIBBLE[0]:
+        _scribble_ball(value)
+    return c, r
 
 
 def regime(extent):
@@ -161,8 +178,17 @@ def _v(res, si, cls, ball, what, detail, reg=None):
                                        cls=cls, ball=ball, what=what, regime=reg))
 
 
-def check_definitions(shape, res, si):
-    """Append a violation for every ball of the shape that contradicts its definition."""
+def check_definitions(shape, res, si, scribble=False):
+    """Append a violation for every ball of the shape that contradicts its definition.
+    ``scribble``: every ball read is edited by the caller right after it was judged."""
+    _SCRIBBLE[0] = bool(scribble)
+    try:
+        return _check_definitions(shape, res, si)
+    finally:
+        _SCRIBBLE[0] = False
+
+
+def _check_definitions(shape, res, si):
     C = res["counters"]
     cls = type(shape).__name__
     C["definition_states"] += 1
